@@ -454,7 +454,7 @@ class ImportSet:
                 import_column = None
         elif isinstance(params.align_imports, int):
             import_column = params.align_imports
-        elif isinstance(params.align_imports, (tuple, list, set)):
+        elif isinstance(params.align_imports, (tuple, list, set, frozenset)):
             # If given a set of candidate alignment columns, then try each
             # alignment column and pick the one that yields the fewest number
             # of output lines.
